@@ -58,8 +58,11 @@ def shards(tier, seed):
     out = []
     for ts in range(len(TARGET_SETS) if tier != "quick" else 2):
         for rc in (0, 1):
-            for first in range(len(QUERY_POOL)):
-                out.append(dict(name="model/t%d/rc%d/q%d" % (ts, rc, first), kind="model", ts=ts, rc=rc, first=first, numba_threads=16, weight=1000))
+            # (every process compiles the non-cached TOMTOM kernels once, ~20 s: keep the number of shards <= 16)
+            groups = [(0, 1), (2, 3), (4,)] if tier == "quick" else [(q,) for q in range(len(QUERY_POOL))]
+            for grp in groups:
+                out.append(dict(name="model/t%d/rc%d/q%s" % (ts, rc, "".join(map(str, grp))), kind="model", ts=ts, rc=rc, firsts=list(grp),
+                                numba_threads=16, weight=1000 * len(grp)))
     out.append(dict(name="nearest", kind="nearest", numba_threads=4, weight=300))
     out.append(dict(name="annotate", kind="annotate", numba_threads=4, weight=500))
     return out
@@ -180,9 +183,12 @@ def run_model(rec, sh, tier, seed):
                           reverse_complement=rc), expected=rows[0], observed=[r for r in rows[1:] if not same(rows[0], r)][0],
                           msg="a single query on fresh scratch gives different results for different fill values of numpy.empty")
         alone[qi] = rows[0]
-    lists = [(sh["first"],)] + [(sh["first"], b) for b in range(5)] + [(sh["first"], b, c) for b in range(5) for c in range(5)]
-    if tier == "quick":
-        lists = [l for l in lists if len(l) < 3 or (l[1] + 2 * l[2] + sh["first"]) % 10 == 0]
+    lists = []
+    for first in sh["firsts"]:
+        ll = [(first,)] + [(first, b) for b in range(5)] + [(first, b, c) for b in range(5) for c in range(5)]
+        if tier == "quick":
+            ll = [l for l in ll if len(l) < 3 or (l[1] + 2 * l[2] + first) % 10 == 0]
+        lists += ll
     for ql in lists:
         Qs = [pool[q] for q in ql]
         nq = len(ql)
@@ -244,7 +250,7 @@ def run_model(rec, sh, tier, seed):
             rec.violation("tomtom:num_threads_not_restored", dict(fn="tomtom", expected=16, observed=numba.get_num_threads()))
             numba.set_num_threads(16)
         rec.observe(ql, base.tobytes()[:128])
-    rec.sample(dict(kind="model", targets=TARGET_SETS[sh["ts"]], rc=rc, query_pool=QUERY_POOL, first_query=QUERY_POOL[sh["first"]], lists=len(lists),
+    rec.sample(dict(kind="model", targets=TARGET_SETS[sh["ts"]], rc=rc, query_pool=QUERY_POOL, first_queries=[QUERY_POOL[q] for q in sh["firsts"]], lists=len(lists),
                     schedules_for_3_queries=len(schedules(3, tier, True)), poisons=[repr(p) for p in POISONS]))
 
 
